@@ -720,10 +720,68 @@ class Check(PropertyCheck):
                     fails.append(f"after {op}: watchdog blocker {st['blocker']} with {len(waiting)} hooks pending"); break
         return fails
 
+    KILL_FORWARDED = "kill: the message of the killed flow was forwarded"
+
     def known(self, case, obs, failure):
-        if case["level"] == "world" and failure.startswith("kill: ") and "forwarded" in failure:
-            return FINDING.get(KIND[case["proto"]])
-        return None
+        """F-C11a–d: exactly 'the message whose hook was pending when the flow was killed is forwarded (once) when the
+        hook completes' in the TCP / UDP / WebSocket / DNS-answer layers.  Input class: world level, action kill on a
+        killable flow of that layer; failure: the oracle's kill-forwarded clause; observation: the flow IS killed
+        (error set, not live), nothing was sent while held, the message went out exactly once.  Anything else — another
+        clause, a duplicate, a later message forwarded although the killed one was not, another layer — is reported."""
+        if case.get("level") != "world" or case.get("action") != "kill": return None
+        kind = KIND.get(case.get("proto"))
+        fid = FINDING.get(kind)
+        if fid is None: return None
+        if failure != f"{self.KILL_FORWARDED} ({kind})": return None
+        if not (obs.get("intercepted") and obs.get("killable")): return None
+        if obs.get("during0") or obs.get("during1"): return None
+        if obs.get("after_final") != 1: return None
+        if not obs.get("error") or obs.get("live"): return None
+        return fid
+
+    def setup(self, tier):
+        self.known_selftest()
+
+    def known_selftest(self):
+        """positive witness and near misses for every finding (notes/known_audit.txt): raises → the run ends as INFRA"""
+        def obs(**kw):
+            o = {"intercepted": True, "killable": True, "during0": 0, "during1": 0, "after_final": 1, "error": "Connection killed.",
+                 "live": False, "later": 1, "between": {}}
+            o.update(kw); return o
+        def case(proto, action="kill", **kw):
+            c = {"level": "world", "proto": proto, "action": action, "between": []}; c.update(kw); return c
+        fwd = lambda kind: f"{self.KILL_FORWARDED} ({kind})"
+        later = lambda kind: f"kill: a later message of the killed flow was forwarded ({kind})"
+        T = []
+        for proto, kind, fid in (("tcp_c2s", "tcp", "F-C11a"), ("udp_s2c", "udp", "F-C11b"), ("ws_s2c", "ws", "F-C11c"),
+                                 ("dns_resp", "dnsResp", "F-C11d")):
+            T += [
+                (case(proto), obs(), fwd(kind), fid),                                      # the recorded witness
+                (case(proto, between=["next"]), obs(), fwd(kind), fid),
+                # (a) same input class, a different failure
+                (case(proto), obs(), "kill: the flow has no error", None),
+                (case(proto), obs(), "kill: the flow is still live", None),
+                (case(proto), obs(during1=1), "held: the intercepted message reached its destination while intercepted (0/1×)", None),
+                (case(proto), obs(after_final=0), later(kind), None),                      # later message, killed one held back
+                (case(proto), obs(after_final=2), fwd(kind), None),                        # forwarded twice
+                (case(proto), obs(during1=1), fwd(kind), None),                            # also leaked while held
+                (case(proto), obs(error=None), fwd(kind), None),                           # the flow was not really killed
+                (case(proto), obs(live=True), fwd(kind), None),
+                # (b) a neighbouring input with the same kind of failure
+                (case(proto, action="resume"), obs(), fwd(kind), None),
+                (case(proto, action="edit", how="revert"), obs(), fwd(kind), None),
+                (case(proto), obs(killable=False), fwd(kind), None),
+                (dict(case(proto), level="async"), obs(), fwd(kind), None),
+            ]
+        # the layers that honour the kill are never excused, whatever the text says
+        for proto, kind in (("http1_req", "http"), ("http1_resp", "http"), ("http2_req", "http"), ("http2_resp", "http"), ("dns_req", "dnsReq")):
+            T += [(case(proto), obs(), fwd(kind), None), (case(proto), obs(), fwd("tcp"), None)]
+        # a message of one layer is not excused by another layer's finding
+        T += [(case("tcp_c2s"), obs(), fwd("udp"), None), (case("dns_resp"), obs(), fwd("dnsReq"), None),
+              (case("ws_c2s"), obs(), "resume: the message was forwarded 2 times", None)]
+        for c, o, f, want in T:
+            got = self.known(c, o, f)
+            assert got == want, f"known() self-test: {c} / {f!r} / {({k: o[k] for k in ('after_final', 'during1', 'error', 'live', 'killable')})}: got {got}, expected {want}"
 
     # ---- model tie ----------------------------------------------------------------------------
     def model_lines(self, case):
